@@ -21,7 +21,11 @@
    Abstract line (harness/project.py shape, tags structured):
      rt name refs f num ovs tg
      tg = sequence of [n |-> name, t |-> datatype letter,
-                       v |-> "T:value" text, sub |-> B subtype or "", el |-> B elements]  *)
+                       v |-> "T:value" text, sub |-> B subtype or "", el |-> B elements]
+     sh = <<>>, except for a user-defined (custom) record as the harness delivers it:
+          there f holds ALL fields after the record type, tg is empty and sh gives the
+          syntactic shape of every field (see "CUSTOM RECORDS" below); Resolve draws the
+          boundary between positional fields and tags.                              *)
 EXTENDS Gfa, TLC
 
 -----------------------------------------------------------------------------
@@ -121,7 +125,7 @@ COp(n, c) == [n |-> n, c |-> c]
 CpMark == "<cp>"
 MkLine(rt, name, refs, f, num, ovs, tg) ==
   [rt |-> rt, name |-> name, refs |-> refs, f |-> f, fc |-> [i \in DOMAIN f |-> <<>>],
-   num |-> num, ovs |-> ovs, tg |-> tg]
+   num |-> num, ovs |-> ovs, tg |-> tg, sh |-> <<>>]
 
 Hd(tg)            == MkLine("H", "*", <<>>, <<>>, <<>>, <<>>, tg)
 Cm(text)          == MkLine("#", "*", <<>>, <<text>>, <<>>, <<>>, <<>>)
@@ -154,6 +158,75 @@ NAsciiSplit == 5
 SpecialComments == [k \in DOMAIN SplitChars |-> CmCp(<<32, 97, SplitChars[k], 98>>)]       \* "# a?b"
 SpecialCustom == [k \in 1..NAsciiSplit |->
                     CuCp("X", <<"k", CpMark>>, <<<<>>, <<112, SplitChars[k], 113>>>>)]       \* "X k p?q"
+
+-----------------------------------------------------------------------------
+(* CUSTOM RECORDS: the boundary between positional fields and tags.
+
+   A user-defined record has no declared number of positional fields; this is the one place
+   where the boundary is not given by the record type.  The rule (gfapy doc/tutorial/
+   custom_records.rst, "the fields are parsed from the last to the first. As soon as a field is
+   found which does not resemble a tag, all remaining fields are considered positionals"):
+   reading from the right, a field is a tag as long as
+     - it has the shape  name:letter:value  (name = letter + letter/digit, value non-empty
+       printable ASCII: decided syntactically by the harness, which delivers the pieces in sh),
+     - the letter is one of the seven datatypes,
+     - the value can be a value of that datatype (BadVals: table of the values of the catalogue
+       and of the random driver which cannot; every other value they use can),
+     - no tag further right has the same name (a line has one tag per name);
+   the first field for which this fails, and everything left of it, is positional: written
+   back character by character, no spelling normalisation, whatever it looks like.
+   The rule does not mention the validation level: the same document has the same records
+   at every level.                                                                        *)
+NoShape == [n |-> "", t |-> "", v |-> "", sub |-> "", el |-> <<>>]
+BadVals == {"A:xy", "i:abc", "i:1.5", "i:0x1F", "f:abc", "f:1.5x", "J:{", "J:[1,]", "H:1AE", "H:XYZW",
+            "B:c,300", "B:c,-129", "B:C,-1", "B:C,256", "B:s,40000", "B:S,-1", "B:S,65536",
+            "B:i,2147483648", "B:I,-1", "B:q,3", "B:c,x", "B:c,1.5", "B:f,abc"}
+Taggable(s) == s.t \in Datatypes /\ s.v \notin BadVals
+\* index of the first tag of the field sequence whose shapes are sh (Len(sh) + 1: no tag)
+RECURSIVE TagStart(_, _, _)
+TagStart(sh, i, seen) ==
+  IF i = 0 THEN 1
+  ELSE IF Taggable(sh[i]) /\ sh[i].n \notin seen THEN TagStart(sh, i - 1, seen \cup {sh[i].n})
+  ELSE i + 1
+Resolve(l) ==
+  IF l.sh = <<>> THEN l
+  ELSE LET b == TagStart(l.sh, Len(l.sh), {}) IN
+       [l EXCEPT !.f = SubSeq(@, 1, b - 1), !.fc = SubSeq(@, 1, b - 1),
+                 !.tg = SubSeq(l.sh, b, Len(l.sh)), !.sh = <<>>]
+
+(* boundary catalogue: k tag-shaped positional fields before m real tags.  Names differ from
+   those of Var (variant tags are appended on the right: every datatype occurs as the real
+   tag next to the boundary).  A catalogue line DECLARES its positional fields (f) and tags (tg);
+   TraceDoc checks that Resolve, applied to the generated text as the harness splits it, gives
+   the declared line back (clause "catalogue").                                          *)
+CuT(rt, f, tg) == MkLine(rt, "*", <<>>, f, <<>>, <<>>, tg)
+\* tag-shaped but never a tag: value impossible for the datatype, unknown datatype letter,
+\* malformed name (the last three have not even the shape)
+BadFields == <<"cn:A:xy", "cn:i:abc", "cn:i:1.5", "cn:f:abc", "cn:J:{", "cn:J:[1,]", "cn:H:1AE", "cn:H:XYZW",
+               "cn:B:c,300", "cn:B:C,-1", "cn:B:s,40000", "cn:B:q,3", "cn:B:c,x", "cn:B:c,1.5", "cn:B:f,abc",
+               "cn:Q:1", "cn:z:abc", "1n:i:1", "c:i:1", "cnn:i:1">>
+\* perfectly good tags of every datatype (non-canonical spellings where there is one), which are
+\* positional fields only because of what stands to their right
+GoodFields(n) == <<n \o ":A:x", n \o ":i:+5", n \o ":f:1e3", n \o ":Z:with space", n \o ":J:{\"a\":1}",
+                   n \o ":H:1AE3", n \o ":B:i,1,2", n \o ":B:f,1,2.5">>
+BoundaryCustom ==
+     \* k = 1, m = 1: refused for its value / letter / name, after a plain field
+     [i \in DOMAIN BadFields |-> CuT("X", <<"counts", BadFields[i]>>, <<Tg("yy", "Z", "k")>>)]
+     \* k = 1, m = 0 (m = 1, 2 with the variant tags), no plain field
+  \o [i \in DOMAIN BadFields |-> CuT("X", <<BadFields[i]>>, <<>>)]
+     \* the name is repeated by the next field / two fields further right / twice
+  \o [i \in DOMAIN GoodFields("xx") |-> CuT("X", <<"sample", GoodFields("xx")[i]>>, <<Tg("xx", "i", "2")>>)]
+  \o [i \in DOMAIN GoodFields("xx") |-> CuT("Y", <<GoodFields("xx")[i]>>, <<Tg("yy", "Z", "k"), Tg("xx", "f", "1.5")>>)]
+  \o [i \in DOMAIN GoodFields("xx") |-> CuT("Z", <<GoodFields("xx")[i], "xx:i:1">>, <<Tg("xx", "i", "+5")>>)]
+     \* a good tag left of a field that is not one (plain / refused)
+  \o [i \in DOMAIN GoodFields("kk") |-> CuT("Y", <<GoodFields("kk")[i], "plain">>, <<Tg("kk", "Z", "second"), Tg("zz", "f", "1.5")>>)]
+  \o [i \in DOMAIN GoodFields("q1") |-> CuT("X", <<GoodFields("q1")[i], BadFields[((3 * i) % Len(BadFields)) + 1]>>, <<Tg("yy", "Z", "k")>>)]
+     \* k = 0: nothing but tags; a record type alone
+  \o <<CuT("X", <<>>, <<Tg("q1", "i", "+5")>>),
+       CuT("X", <<>>, <<Tg("q1", "i", "+5"), Tg("q2", "f", "1e3")>>),
+       CuT("Z", <<>>, <<>>),
+       \* tag-shaped text in a comment is comment text
+       Cm(" xx:i:+5\txx:i:+5")>>
 
 C2M1D1M == <<COp(2, "M"), COp(1, "D"), COp(1, "M")>>
 C1M1I2M == <<COp(1, "M"), COp(1, "I"), COp(2, "M")>>
@@ -224,7 +297,7 @@ Cat2N == <<
   (*31*) Cu("Y", <<"only">>),
   (*32*) Cm(" gfa2 comment"),
   (*33*) Cm("   spaces") >>
-Cat2 == Cat2N \o SpecialComments \o SpecialCustom
+Cat2 == Cat2N \o SpecialComments \o SpecialCustom \o BoundaryCustom
 Extra2 == [i \in DOMAIN Cat2 |->
   CASE i = 20 -> {9} [] i = 22 -> {14} [] i = 23 -> {13} [] OTHER -> {}]
 
@@ -333,6 +406,10 @@ SeedDocs(ver, k) == {DepClose(ver, s) : s \in SubsetsUpTo(NormalIdx(ver), k) \ {
 \* every line with special characters alone and next to a segment line
 FirstSeg(ver) == CHOOSE i \in NormalIdx(ver) : Cat(ver)[i].rt = "S" /\ \A j \in NormalIdx(ver) : Cat(ver)[j].rt = "S" => i <= j
 SpecialDocs(ver) == UNION {{{i}, {i, FirstSeg(ver)}} : i \in SpecialIdx(ver)}
+\* two custom records of the boundary catalogue in one document
+BoundaryIdx(ver) == IF ver = "gfa1" THEN {}
+                    ELSE (Len(Cat2) - Len(BoundaryCustom) + 1)..Len(Cat2)
+BoundaryDocs(ver) == {{i, i + 1} : i \in {x \in BoundaryIdx(ver) : x + 1 \in BoundaryIdx(ver)}}
 
 -----------------------------------------------------------------------------
 (* (c) WRITER NORMAL FORM *)
